@@ -2,7 +2,7 @@ import os, subprocess
 META = dict(
     engine='rt',
     technique='stateless model checking at task granularity: every task-level execution order (harness-owned scheduler, master stream only) of the real apply / map_operator / tree-reduction taskpools over all small matrix shapes, plus a free-running configuration box',
-    level_text='parsec_apply (apply.jdf through parsec_apply_New): all shapes mt,nt in 1..4 x uplo in {full, upper, lower}; parsec_map_operator: all shapes 1..4 x 1..4 x destination {none, other matrix, in place} with 1, 2 and 4 generator chains (a context with that many execution streams of which only the master is handed tasks, so chain interleavings are enumerated deterministically); the repository reduce.jdf tree (compiled by the freshly built ptgpp, its printf-only BODY macro-replaced by an integer + hook) for 1..9 tiles. Regions of <= 6 tiles (quick; 7 thorough): EVERY task-level execution order is run on the real runtime; larger ones: every order with <= 1 (quick) / 2 (thorough) deviations from the canonical order. In each execution the operator call log must contain every tile of the region exactly once and no other tile, with the right tile pointer, descriptor, op_args and uplo argument, the tile contents must be the sequential result, and the reduction root must deliver the sequential fold (tile i = 10^i, so every decimal digit counts how often a tile was folded in). Threads {1,2,4} x schedulers {default, ap, ll} run the same oracles free-running.',
+    level_text='parsec_apply (apply.jdf through parsec_apply_New): all shapes mt,nt in 1..4 x uplo in {full, upper, lower}; parsec_map_operator: all shapes 1..4 x 1..4 x destination {none, other matrix, in place} with 1, 2 and 4 generator chains (a context with that many execution streams of which only the master is handed tasks, so chain interleavings are enumerated deterministically); the repository reduce.jdf tree (compiled by the freshly built ptgpp, its printf-only BODY macro-replaced by an integer + hook) for 1..9 tiles. Regions of <= 5 tiles (quick; 7 thorough; the reduction trees always): EVERY task-level execution order is run on the real runtime; larger ones: every order with <= 1 (quick) / 2 (thorough) deviations from the canonical order. In each execution the operator call log must contain every tile of the region exactly once and no other tile, with the right tile pointer, descriptor, op_args and uplo argument, the tile contents must be the sequential result, and the reduction root must deliver the sequential fold (tile i = 10^i, so every decimal digit counts how often a tile was folded in). Threads {1,2,4} x schedulers {default, ap, ll} run the same oracles free-running.',
     level_note='Single process (hk-shm, P=Q=1, 1x1-element integer tiles). The "equals the sequential fold" half of C22 is a KNOWN FINDING for the built-in reductions: the bodies of reduce.jdf / reduce_col.jdf / reduce_row.jdf apply no operator (C22-reduce-bodies-ignore-operator) and parsec_reduce_col_New / parsec_reduce_row_New address tiles outside the matrix on every shape (C22-reduce-rowcol-wrapper-bounds); leg builtin-reductions runs them unmodified and accepts exactly those two signatures. What is decided for reductions is the dependency structure of the reduce.jdf tree (each tile consumed exactly once, one root). MPI-less builds generate no write-back of the tree result into R (jdf2c emits it under DISTRIBUTED only): the value sent to R is read in the root task. Task bodies are atomic at this level.',
 )
 RULE = ("hsched DFS: one execution = one complete run of the operator taskpool on the real runtime under one choice list (every select() with >1 pending ready tasks "
@@ -30,8 +30,8 @@ def check(ctx):
     exe = _exe(ctx)
     q = ctx.tier == 'quick'
     args = ['--known', _known(), '--outdir', vlib.OUT, '--jobs', str(min(vlib.NJOBS, 12))]
-    args += ['--maxall', '6', '--maxdev', '1', '--deadline', '60'] if q else ['--maxall', '7', '--maxdev', '2', '--deadline', '1000', '--thorough']
-    ctx.run_engine(exe, args, label='ops', timeout=(150 if q else 1500))
+    args += ['--maxall', '5', '--maxdev', '1', '--deadline', '60'] if q else ['--maxall', '7', '--maxdev', '2', '--deadline', '1000', '--thorough']
+    ctx.run_engine(exe, args, label='ops', timeout=(600 if q else 2400))
     return ctx.finish(RULE, ASSUME)
 def replay(ctx, path, obj):
     return subprocess.call([_exe(ctx), '--replay', path, '--known', _known()])
